@@ -116,6 +116,8 @@ type Check struct {
 	Budget func(tier string) time.Duration
 	// Workers overrides the number of worker processes (default: NumCPU).
 	Workers int
+	// Prepare runs once in the parent (and in a replay) before any scenario: builds binaries etc.
+	Prepare func(tier string)
 }
 
 var registry = map[string]*Check{}
@@ -323,6 +325,10 @@ func ParentMain(chk *Check, tier string, seed int) int {
 	start := time.Now()
 	scratch := Scratch()
 	defer os.RemoveAll(scratch)
+	if chk.Prepare != nil {
+		chk.Prepare(tier)
+		os.Setenv("VERIF_PREPARED", "1")
+	}
 	specs := chk.Scenarios(tier, seed)
 	if len(specs) == 0 {
 		HarnessError("%s: no scenarios", chk.ID)
@@ -655,6 +661,9 @@ func ReplayMain(chk *Check, tier string, seed int, file string, quiet bool) int 
 	}
 	os.Unsetenv("VERIF_SCRATCH") // a replay never shares (or removes) the scratch directory of a parent
 	defer os.RemoveAll(Scratch())
+	if chk.Prepare != nil && os.Getenv("VERIF_PREPARED") == "" {
+		chk.Prepare(tier)
+	}
 	c := newCtx(chk.ID, tier, seed)
 	c.spec = v.Spec
 	c.Replaying = true
@@ -678,4 +687,33 @@ func ReplayMain(chk *Check, tier string, seed int, file string, quiet bool) int 
 		fmt.Printf("not reproduced: class=%s\n", v.Class)
 	}
 	return rc
+}
+
+// ---- real binaries of the repository under test ------------------------------------------------
+
+func repoDir() string {
+	if d := os.Getenv("VERIF_REPO"); d != "" {
+		return d
+	}
+	return "/repo"
+}
+
+// RepoBinary returns the path of the binary built from <repo>/src/<name> (see BuildRepoBinary).
+func RepoBinary(name string) string {
+	h := fnv.New32a()
+	h.Write([]byte(repoDir()))
+	return filepath.Join(VerifDir(), ".bin", fmt.Sprintf("%s.%08x", name, h.Sum32()))
+}
+
+// BuildRepoBinary builds <repo>/src/<name> from the current working tree (no verif tag: the shipped program).
+func BuildRepoBinary(name string) string {
+	out := RepoBinary(name)
+	os.MkdirAll(filepath.Dir(out), 0o755)
+	cmd := exec.Command("go", "build", "-o", out, ".")
+	cmd.Dir = filepath.Join(repoDir(), "src", name)
+	cmd.Env = append(os.Environ(), "GOFLAGS=-mod=mod", "GOPROXY=off", "GOSUMDB=off", "GOTOOLCHAIN=local", "GOWORK=off")
+	if b, err := cmd.CombinedOutput(); err != nil {
+		HarnessError("build %s: %v\n%s", name, err, b)
+	}
+	return out
 }
